@@ -80,7 +80,7 @@ TEXTS = {
         "text": "Lean theorems C07_format (whole pipeline: for every input, parser behaviour and wrapper that keeps ignored tokens, a run of marked tokens is in the output contiguously with its scanned whitespace and text) and verbatim_emitted: the reconstructor model emits every run of ignored tokens byte for byte for every counter "
                 "assignment (under a decidable no-safety-net side condition, tallied per case); ignored tokens cannot be rewritten. The "
                 "toggle recogniser, marking, void step and reconstructor models are tied to the code by differential execution; a "
-                "substring-equality oracle runs on every case, including a family that places toggle comments between arbitrary tokens. C07_format_any_search: with the exact model of the wrapper stage around an arbitrary search the wrapper hypothesis is a theorem.",
+                "substring-equality oracle runs on every case, including a family that places toggle comments between arbitrary tokens. C07_format_any_search: with the exact model of the wrapper stage around an arbitrary search the wrapper hypothesis is a theorem. Last sentence of the property (Proofs/ToggleSpec): toggle_spec (parseToggle c = some tg iff c = opener ++ blanks ++ 'pasfmt' in any letter case ++ at least one blank ++ the maximal alphanumeric word, which spells on/off in any letter case; opener = //, {, (*), toggle_case_insensitive, toggle_exact_words, toggle_three_comment_forms, toggler_regions (a token is marked iff it is a toggle comment itself or the nearest toggle comment before it is an off; the region runs to the end-of-file token when no on follows), asm_marks_spec, ignoredMarks_spec / preWrap_marks_spec (which discharge the marking hypothesis of C07_format declaratively), unmarked_still_formatted, voidLines_spec.",
         "design_ref": "DESIGN.md section 5 (C07)",
         "note": "Asm bodies rely on the real parser's AsmInstruction lines (taken from the implementation in every case). Known finding F4 "
                 "(lone-CR line comment inside a region). Trusted: Lean kernel, translator, harness, hand-written model.",
